@@ -124,6 +124,8 @@ class RegexFacade:
                                       # of the whole process: with other threads busy its allowance is spent sooner)
 
     def reset(self, mode='pass'):
+        self.mark = 0.0
+        self.mark_n = 0
         self.inject_timeouts = False
         self.timeouts_injected = 0
         self.premature_left = 0
@@ -136,6 +138,9 @@ class RegexFacade:
         self.entries.append((fn, timeout, plen, slen))
         ok = isinstance(timeout, (int, float)) and not isinstance(timeout, bool) and 0 < timeout < float('inf')
         self.clock += float(timeout) * fraction if ok else float('inf')
+        if ok and self.clock - getattr(self, 'mark', 0.0) > 120.0 and len(self.entries) - getattr(self, 'mark_n', 0) > 400:
+            # one evaluation keeps entering the engine without end (each entry within its timeout): it would never return
+            raise SimDeadlock('more than 120 virtual seconds and 400 engine entries charged to one evaluation: the call does not return')
         if ok:
             VCLOCK.advance(float(timeout) * fraction)      # worst case: the engine used its whole allowance
 
